@@ -161,24 +161,48 @@ def handleFailure2 (cfg : Cfg) (tl : Bool) (c : Classification) (attempt : Nat) 
       else
         grantRetry cfg tl c attempt cause exc key kind (cfg.deadline - el)
 
+/-- `limit is not None and self.per_class_counts[klass] > limit` -/
+def overPerClass (cfg : Cfg) (counts : EClass → Nat) (k : EClass) : Bool :=
+  match cfg.perClass k with
+  | some l => decide (counts k > l)
+  | none => false
+
+/-- `max_unknown_attempts is not None and self.unknown_attempts > max_unknown_attempts` -/
+def overUnknown (cfg : Cfg) (n : Nat) : Bool :=
+  match cfg.maxUnknown with
+  | some m => decide (n > m)
+  | none => false
+
+/-- `_handle_failure`, the UNKNOWN branch -/
+def handleUnknown (cfg : Cfg) (tl : Bool) (c : Classification) (attempt : Nat) (cause : Cause)
+    (exc : Option Exn) : M Decision := do
+  modifyRS fun r => { r with unknownAttempts := r.unknownAttempts + 1 }
+  let r ← getRS
+  if overUnknown cfg r.unknownAttempts then
+    stopWith cfg tl .maxUnknownAttempts .maxUnknownAttemptsExceeded attempt c.klass exc cause
+  else handleFailure2 cfg tl c attempt cause exc
+
+/-- `_handle_failure`, part 1: per-class cap, non-retryable classes, UNKNOWN cap -/
+def handleFailure1 (cfg : Cfg) (tl : Bool) (c : Classification) (attempt : Nat) (cause : Cause)
+    (exc : Option Exn) : M Decision := do
+  let r ← getRS
+  if overPerClass cfg r.perClassCounts c.klass then
+    stopWith cfg tl .maxAttemptsPerClass .maxAttemptsExceeded attempt c.klass exc cause
+  else if c.klass.nonRetryable then
+    stopWith cfg tl .nonRetryableClass .permanentFail attempt c.klass exc cause
+  else if c.klass = .unknown then handleUnknown cfg tl c attempt cause exc
+  else handleFailure2 cfg tl c attempt cause exc
+
+/-- `per_class_counts[klass] += 1` -/
+def bumpCount (f : EClass → Nat) (k : EClass) : EClass → Nat :=
+  fun k' => if k' = k then f k' + 1 else f k'
+
 /-- `_RetryState._handle_failure` -/
 def handleFailure (cfg : Cfg) (tl : Bool) (c : Classification) (attempt : Nat) (cause : Cause)
     (exc : Option Exn) (result : Option Nat) : M Decision := do
   recordFailure c cause exc result
-  let k := c.klass
-  modifyRS fun r => { r with perClassCounts := fun k' => if k' = k then r.perClassCounts k' + 1 else r.perClassCounts k' }
-  let r ← getRS
-  if (match cfg.perClass k with | some l => decide (r.perClassCounts k > l) | none => false) then
-    stopWith cfg tl .maxAttemptsPerClass .maxAttemptsExceeded attempt k exc cause
-  else if k.nonRetryable then
-    stopWith cfg tl .nonRetryableClass .permanentFail attempt k exc cause
-  else if k = .unknown then do
-    modifyRS fun r => { r with unknownAttempts := r.unknownAttempts + 1 }
-    let r ← getRS
-    if (match cfg.maxUnknown with | some m => decide (r.unknownAttempts > m) | none => false) then
-      stopWith cfg tl .maxUnknownAttempts .maxUnknownAttemptsExceeded attempt k exc cause
-    else handleFailure2 cfg tl c attempt cause exc
-  else handleFailure2 cfg tl c attempt cause exc
+  modifyRS fun r => { r with perClassCounts := bumpCount r.perClassCounts c.klass }
+  handleFailure1 cfg tl c attempt cause exc
 
 def callClassifier (exc : Exn) : M Classification := do
   let a ← ask (.classify exc.ref)
@@ -535,14 +559,18 @@ def execResultFailure (cfg : Cfg) (tl : Bool) (attempt v : Nat) (c : Classificat
   let r ← getRS
   deliverExecute cfg tl (determineAction o r attempt true) o
 
-/-- the body of the `try:` of `_run_sync_execute` -/
-def execBody (cfg : Cfg) (tl : Bool) (attempt : Nat) : M (Option Outcome) := do
+/-- the `try:` body of `_run_sync_execute` up to and including `func()` -/
+def execPre (cfg : Cfg) (tl : Bool) (attempt : Nat) : M Nat := do
   checkAbort cfg tl (attempt - 1)
   callAttemptStart cfg attempt
   modifyAS fun a => { a with started := true }
   modify fun w => { w with attempts := attempt }
   let v ← invokeOp attempt
   modifyAS fun a => { a with returned := true }
+  pure v
+
+/-- the rest of the `try:` body, after `func()` returned `v` -/
+def execResultPath (cfg : Cfg) (tl : Bool) (attempt v : Nat) : M (Option Outcome) := do
   let c ← shouldClassifyResult cfg v
   match c with
   | none => do
@@ -558,9 +586,10 @@ def execAbortExit (cfg : Cfg) (tl : Bool) (attempt : Nat) (e : Exn) : M (Option 
   pure (some out)
 
 /-- `try: state.check_abort(attempt) except AbortRetryError: …` — `true` when aborted -/
+def abortToTrue (e : Exn) : M Bool := if e.isAbort then pure true else throw e
+
 def checkAbortCaught (cfg : Cfg) (tl : Bool) (attempt : Nat) : M Bool :=
-  tryCatch (do checkAbort cfg tl attempt; pure false)
-    (fun e => if e.isAbort then pure true else throw e)
+  tryCatch (do checkAbort cfg tl attempt; pure false) abortToTrue
 
 def execExceptionPath3 (cfg : Cfg) (tl : Bool) (attempt : Nat) (e : Exn) (d : Decision) :
     M (Option Outcome) := do
@@ -581,17 +610,15 @@ def execExceptionPath2 (cfg : Cfg) (tl : Bool) (attempt : Nat) (e : Exn) : M (Op
     if aborted then execAbortExit cfg tl attempt e
     else execExceptionPath3 cfg tl attempt e d
 
-/-- the `except Exception as exc:` arm of `_run_sync_execute` -/
+/-- the `except Exception as exc:` arm of `_run_sync_execute`, when the operation itself raised
+    (`attempt_state.returned` is false) -/
 def execExceptionPath (cfg : Cfg) (tl : Bool) (attempt : Nat) (e : Exn) : M (Option Outcome) := do
-  let a ← getAS
-  if a.returned then throw e
-  else do
-    modifyAS fun a => { a with cause := some .exception }
-    let aborted ← checkAbortCaught cfg tl attempt
-    if aborted then execAbortExit cfg tl attempt e
-    else execExceptionPath2 cfg tl attempt e
+  modifyAS fun a => { a with cause := some .exception }
+  let aborted ← checkAbortCaught cfg tl attempt
+  if aborted then execAbortExit cfg tl attempt e
+  else execExceptionPath2 cfg tl attempt e
 
-/-- the `except` ladder of `_run_sync_execute` -/
+/-- the `except` ladder of `_run_sync_execute` for an exception raised before `func()` returned -/
 def execHandler (cfg : Cfg) (tl : Bool) (attempt : Nat) (e : Exn) : M (Option Outcome) :=
   if e.isAbort then execAbortExit cfg tl attempt e
   else if e = .cancelled then throw e
@@ -600,9 +627,21 @@ def execHandler (cfg : Cfg) (tl : Bool) (attempt : Nat) (e : Exn) : M (Option Ou
   else if e.isException then execExceptionPath cfg tl attempt e
   else throw e
 
+/-- the same ladder once `attempt_state.returned` is set: AbortRetryError still ends the run as
+    aborted; every other arm re-raises (the `except Exception` arm because of the flag) -/
+def execReturnedHandler (cfg : Cfg) (tl : Bool) (attempt : Nat) (e : Exn) : M (Option Outcome) :=
+  if e.isAbort then execAbortExit cfg tl attempt e else throw e
+
+/-- One iteration of the loop of `_run_sync_execute`.  The single Python `try` whose `except
+    Exception` arm consults `attempt_state.returned` is written as two consecutive regions — before
+    and after `func()` returns — which is the same control flow without the flag. -/
 def execAttempt (cfg : Cfg) (tl : Bool) (attempt : Nat) : M (Option Outcome) := do
   modify fun w => { w with as := {} }
-  tryCatch (execBody cfg tl attempt) (execHandler cfg tl attempt)
+  let r ← tryCatch (do let v ← execPre cfg tl attempt; pure (Sum.inl v))
+            (fun e => do let o ← execHandler cfg tl attempt e; pure (Sum.inr o))
+  match r with
+  | .inr o => pure o
+  | .inl v => tryCatch (execResultPath cfg tl attempt v) (execReturnedHandler cfg tl attempt)
 
 /-- `build_exhausted_outcome` -/
 def buildExhaustedOutcome (cfg : Cfg) (tl : Bool) : M Outcome := do
